@@ -170,7 +170,7 @@ def check_codebase(ctx, drv, desc, root, origin, cli, extra_expected=None):
         # database events
         for pname, ents in desc["platforms"].items():
             req = {"op": "dbevents", "dbpath": os.path.join(str(root), f"{pname}.json"), "entries": [
-                {"path": os.path.normpath(os.path.join(str(root), e["file"])), "supported": True, "exists": not mt["missing"],
+                {"path": os.path.normpath(os.path.join(str(root), e.get("builddir", ""), e["file"])), "supported": True, "exists": not mt["missing"],
                  "compiler": mt["compiler"], "known": mt["known"], "unrecognised": mt["unrecognised"]}
                 for e, mt in zip(ents, desc["dbmeta"][pname])]}
             r = drv.ask(req)
